@@ -686,6 +686,11 @@ def oracle(run, ok_bits):
                 if operands_ok and args_ok and not lab_ok:
                     out.append(("labelok:" + name, "%s on correctly labelled operands returned %s labelled %r (units list %r)"
                                 % (name, "a series" if im[2]["series"] else "a single value", im[2]["labels"], im[2]["units"]), k))
+        # the documented labels (Python restatement of Proofs/Food.lean:docLabels, defence in depth)
+        if n in VALUE_OPS and n != "construct" and all(ok_bits[s][0] for s in st["operands"]):
+            want = doc_labels(op, bef)
+            if want is not None and im[2]["labels"] != want:
+                out.append(("doc-label:" + name, "%s of %r returned labels %r, documented: %r" % (name, bef[0]["labels"], im[2]["labels"], want), k))
         # different units must be refused
         if n in BINARY_UNIT_OPS or n == "pred2":
             a, b = bef[0], bef[1]
@@ -703,6 +708,29 @@ def oracle(run, ok_bits):
                     out.append(("ratio-label:mul", "ratio %s: product of %r and %r is labelled %r" %
                                 ("on the left" if ra else "on the right", a["labels"], b["labels"], got), k))
     return out
+
+
+SAME_LABEL_OPS = {"add", "sub", "minElem", "mulNum", "divNum", "neg", "abs", "clip", "round", "shift", "getSlice", "runningSum"}
+
+
+def doc_labels(op, bef):
+    """labels the documentation implies for the result, for correctly labelled operands"""
+    n = op["op"]
+    a = bef[0]
+    if n in SAME_LABEL_OPS:
+        return a["labels"]
+    if n == "mulArr":
+        return a["labels"] if a["series"] else [u + EACH for u in a["labels"]]
+    if n in ("sum", "minAll", "maxAll"):
+        return [u[:-len(EACH)] for u in a["labels"]] if all(u.endswith(EACH) for u in a["labels"]) else None
+    if n in ("getMonth", "getInt"):
+        return [u[:-len(EACH)] + PER for u in a["labels"]] if all(u.endswith(EACH) for u in a["labels"]) else None
+    if n == "div":
+        return ["ratio" + EACH] * 3 if a["series"] else ["ratio"] * 3
+    if n == "inUnits":
+        sfx = EACH if a["labels"][0].endswith(EACH) else (PER if PER in a["labels"][0] else "")
+        return [t + sfx for t in op["to"]] if all(py_parse(t)[1] == [] for t in op["to"]) else None
+    return None
 
 
 def lean_ok_bits(ctx, snaps):
